@@ -25,7 +25,9 @@ from concurrent.futures import ThreadPoolExecutor
 
 VERIF = os.path.dirname(os.path.dirname(os.path.abspath(__file__)))
 REPO = os.environ.get("VERIF_REPO", "/repo")
-WORK = os.path.join(VERIF, ".work")
+# VERIF_DEADLINE_SCALE: shorter per-part deadlines for smoke runs of a tier (a part that hits it reports exhaustive:false)
+DEADLINE_SCALE = float(os.environ.get("VERIF_DEADLINE_SCALE", "1") or 1)
+WORK = os.environ.get("VERIF_WORKROOT") or os.path.join(VERIF, ".work")  # VERIF_WORKROOT: a second run in parallel (own builds)
 MODPATH = "github.com/flant/shell-operator"
 
 sys.path.insert(0, os.path.join(VERIF, "tools"))
@@ -148,7 +150,7 @@ def run_shard(binpath, part, tier, shard, shards, workdir, only_case=None, seed=
         if os.path.exists(f):
             os.remove(f)
     env = goenv()
-    deadline = part.get("deadline_s", {}).get(tier, 600 if tier == "quick" else 1800)
+    deadline = int(part.get("deadline_s", {}).get(tier, 600 if tier == "quick" else 1800) * DEADLINE_SCALE)
     if deadline_at:
         env["VERIF_DEADLINE_AT"] = str(int(deadline_at))
     env.update({"VERIF_TIER": tier, "VERIF_SHARD": str(shard), "VERIF_SHARDS": str(shards),
@@ -271,7 +273,7 @@ def main():
     for part in parts:
         shards = 1 if replay else part.get("shards", {}).get(tier, 1)
         log("[%s] running part %s (%d shard(s), tier %s)" % (cid, part["name"], shards, tier))
-        part_deadline = part.get("deadline_s", {}).get(tier, 600 if tier == "quick" else 1800)
+        part_deadline = int(part.get("deadline_s", {}).get(tier, 600 if tier == "quick" else 1800) * DEADLINE_SCALE)
         deadline_at = 0 if replay else time.time() + part_deadline
         with ThreadPoolExecutor(max_workers=min(shards, 16)) as ex:
             futs = [ex.submit(run_shard, bins[part["name"]], part, tier, s, shards, workdir,
